@@ -4,6 +4,7 @@ def b_StaticObstacle_create_node : CR.SrcW.Builder where
   kind := .node
   tag := "?obstacle_role.value + 'Obstacle'"
   xsd := "staticObstacle"
+  path := []
   parent := ""
   attrs := []
   gattrs := []
@@ -20,7 +21,8 @@ def b_StaticObstacle_create_node_initialState : CR.SrcW.Builder where
   key := "StaticObstacleXMLNode.create_node/initialState"
   kind := .node
   tag := "initialState"
-  xsd := ""
+  xsd := "staticObstacle"
+  path := ["initialState"]
   parent := "StaticObstacleXMLNode.create_node"
   attrs := []
   gattrs := []
@@ -33,7 +35,8 @@ def b_StaticObstacle_create_node_shape : CR.SrcW.Builder where
   key := "StaticObstacleXMLNode.create_node/shape"
   kind := .node
   tag := "shape"
-  xsd := ""
+  xsd := "staticObstacle"
+  path := ["shape"]
   parent := "StaticObstacleXMLNode.create_node"
   attrs := []
   gattrs := []
